@@ -1,101 +1,158 @@
-(** Proofs about the pseudo-SSL model. *)
+(** Proofs about the pseudo-SSL model (the server hello is collected across reads). *)
 From Coq Require Import ZArith List Bool Lia.
 From Nice Require Import Stream.StreamBase Stream.StreamProofs Stream.TcpQueueModel Stream.PsslModel Stream.ProxyProofs.
 Import ListNotations.
 Local Open Scope Z_scope.
 
-(** the handshake flag is only ever set while the base socket is there *)
-Definition pinv (s : pst) : Prop := p_hs s = true -> p_base s = true.
-
-Lemma pssl_valid_some G c d : lenZ d <= 83 -> exists b, pssl_valid G c d = Some b.
-Proof.
-  intros L. pose proof (lenZ_nonneg d). unfold pssl_valid.
-  assert (L83 : lenZ (repZ G 83) = 83) by (rewrite lenZ_repZ; reflexivity).
-  rewrite mwrite_some by lia.
-  set (data := takeZ 0 (repZ G 83) ++ d ++ dropZ (0 + lenZ d) (repZ G 83)).
-  assert (Ld : lenZ data = 83).
-  { unfold data. rewrite !lenZ_app, lenZ_takeZ, lenZ_dropZ. lia. }
-  assert (R32 : lenZ (repZ 0 32) = 32) by (rewrite lenZ_repZ; reflexivity).
-  destruct (c =? PS_MSOC).
-  - destruct (lenZ d =? 83); eauto.
-    rewrite (mwrite_some data 11) by lia.
-    set (d1 := takeZ 11 data ++ repZ 0 32 ++ dropZ (11 + lenZ (repZ 0 32)) data).
-    assert (L1 : lenZ d1 = 83).
-    { unfold d1. rewrite !lenZ_app, lenZ_takeZ, lenZ_dropZ. lia. }
-    rewrite (mwrite_some d1 44) by lia.
-    set (d2 := takeZ 44 d1 ++ repZ 0 32 ++ dropZ (44 + lenZ (repZ 0 32)) d1).
-    assert (L2 : lenZ d2 = 83).
-    { unfold d2. rewrite !lenZ_app, lenZ_takeZ, lenZ_dropZ. lia. }
-    unfold mreadn. rewrite fits_spec. simpl. destruct (Z.leb_spec (0 + 83) (lenZ d2)); [eauto | lia].
-  - destruct (lenZ d =? 79); eauto.
-    unfold mreadn. rewrite fits_spec. simpl. destruct (Z.leb_spec (0 + 79) (lenZ data)); [eauto | lia].
-Qed.
+Lemma w64_small' x : 0 <= x < W64 -> w64 x = x.
+Proof. intros; unfold w64; apply Z.mod_small; lia. Qed.
 
 Lemma pssl_hello_len_range c : 79 <= pssl_hello_len c <= 83.
 Proof. unfold pssl_hello_len. destruct (c =? PS_MSOC); lia. Qed.
 
-(** shape of one handshake call *)
-Lemma pssl_handshake_exec G s kb : p_hs s = false -> p_base s = true -> kb <> [] ->
-  exists o e, exec (pssl_body G s) kb = (o, dropZ (pssl_hello_len (p_compat s)) kb, e) /\
-    (o = Some ({| p_compat := p_compat s; p_hs := true; p_base := true; p_queue := [] |}, 0) \/
-     (exists s1, o = Some (s1, -1))).
+Definition pinv (s : pst) : Prop :=
+  lenZ (p_hbuf s) = 83 /\ 0 <= p_hlen s /\ (p_hs s = true -> p_base s = true) /\
+  (p_hs s = false -> p_base s = true -> p_hlen s < pssl_hello_len (p_compat s)).
+
+Lemma pinv_init c : pinv (pssl_init c).
 Proof.
-  intros H B N. unfold pssl_body. rewrite H, B. simpl exec.
-  set (n := pssl_hello_len (p_compat s)). pose proof (pssl_hello_len_range (p_compat s)). fold n in H0.
-  set (d := takeZ n kb).
-  assert (Ld : 0 < lenZ d <= 83).
-  { unfold d. rewrite lenZ_takeZ. pose proof (lenZ_pos kb N). lia. }
-  destruct (Z.eqb_spec (lenZ d) 0); [lia|].
-  destruct (pssl_valid_some G (p_compat s) d ltac:(lia)) as [bb V]. rewrite V.
-  destruct bb.
-  - rewrite exec_flush_queue. simpl. eexists _, _. split; [reflexivity|]. left. reflexivity.
-  - simpl. eexists _, _. split; [reflexivity|]. right. eexists. reflexivity.
+  unfold pinv, pssl_init; cbn [p_hbuf p_hlen p_hs p_base p_compat]. pose proof (pssl_hello_len_range c).
+  rewrite lenZ_repZ. repeat split; try lia; try discriminate.
 Qed.
 
-Lemma pssl_inv_step G s kb s1 r k e : pinv s -> exec (pssl_body G s) kb = (Some (s1, r), k, e) -> 0 <= r -> pinv s1.
+Lemma pssl_valid_some c hb len : lenZ hb = 83 -> exists b hb', pssl_valid c hb len = Some (b, hb') /\ lenZ hb' = 83.
 Proof.
-  intros I E R. unfold pssl_body in E.
+  intros L. unfold pssl_valid.
+  assert (R32 : lenZ (repZ 0 32) = 32) by (rewrite lenZ_repZ; reflexivity).
+  destruct (c =? PS_MSOC).
+  - destruct (len =? 83); [|eauto].
+    rewrite (mwrite_some hb 11) by lia.
+    set (d1 := takeZ 11 hb ++ repZ 0 32 ++ dropZ (11 + lenZ (repZ 0 32)) hb).
+    assert (L1 : lenZ d1 = 83) by (unfold d1; rewrite !lenZ_app, lenZ_takeZ, lenZ_dropZ; lia).
+    rewrite (mwrite_some d1 44) by lia.
+    set (d2 := takeZ 44 d1 ++ repZ 0 32 ++ dropZ (44 + lenZ (repZ 0 32)) d1).
+    assert (L2 : lenZ d2 = 83) by (unfold d2; rewrite !lenZ_app, lenZ_takeZ, lenZ_dropZ; lia).
+    destruct (mreadn_some d2 83 ltac:(lia)) as [x ->]. eauto.
+  - destruct (len =? 79); [|eauto].
+    destruct (mreadn_some hb 79 ltac:(lia)) as [x ->]. eauto.
+Qed.
+
+(** the continuation of the hello read absorbs bytes piecewise *)
+Lemma hello_k_app s a x : a <> [] -> x <> [] -> p_hlen s + lenZ a < pssl_hello_len (p_compat s) ->
+  pssl_hello_k s (a ++ x) =
+  match mwrite (p_hbuf s) (p_hlen s) a with
+  | None => PFault
+  | Some hb => pssl_hello_k {| p_compat := p_compat s; p_hs := false; p_base := true; p_queue := p_queue s;
+                               p_hbuf := hb; p_hlen := p_hlen s + lenZ a |} x
+  end.
+Proof.
+  intros NA NX SH. pose proof (lenZ_pos a NA) as La. pose proof (lenZ_pos x NX) as Lx.
+  unfold pssl_hello_k at 1. rewrite lenZ_app. destruct (Z.eqb_spec (lenZ a + lenZ x) 0); [lia|].
+  rewrite mwrite_app. destruct (mwrite (p_hbuf s) (p_hlen s) a) as [hb|]; [|reflexivity].
+  unfold pssl_hello_k. cbn [p_hbuf p_hlen p_compat p_queue].
+  destruct (Z.eqb_spec (lenZ x) 0); [lia|].
+  destruct (mwrite hb (p_hlen s + lenZ a) x); [|reflexivity].
+  replace (p_hlen s + (lenZ a + lenZ x)) with (p_hlen s + lenZ a + lenZ x) by lia. reflexivity.
+Qed.
+
+Lemma pssl_inv_step s kb s1 r k e : pinv s -> exec (pssl_body s) kb = (Some (s1, r), k, e) -> 0 <= r -> pinv s1.
+Proof.
+  intros (LB & L0 & HB & HL) E R. unfold pssl_body in E.
   destruct (p_hs s) eqn:H.
-  - rewrite (I H) in E. unfold passthrough in E. simpl in E.
+  - rewrite (HB eq_refl) in E. unfold passthrough in E. simpl in E.
     destruct (lenZ (takeZ UPCAP kb) =? 0); simpl in E; inversion E; subst; unfold pinv; rewrite H; auto.
-  - destruct (p_base s) eqn:B.
-    + simpl in E. destruct (lenZ (takeZ (pssl_hello_len (p_compat s)) kb) =? 0).
-      * simpl in E. inversion E; subst. unfold pinv. rewrite H. discriminate.
-      * destruct (pssl_valid G (p_compat s) (takeZ (pssl_hello_len (p_compat s)) kb)) as [[|]|].
-        -- rewrite exec_flush_queue in E. simpl in E. inversion E; subst. unfold pinv; simpl; auto.
-        -- simpl in E. inversion E; subst. lia.
-        -- simpl in E. inversion E.
+  - destruct (p_base s) eqn:B; [|simpl in E; inversion E; subst; lia].
+    specialize (HL eq_refl eq_refl). pose proof (pssl_hello_len_range (p_compat s)) as N.
+    rewrite exec_read in E. rewrite w64_small' in E by (unfold W64; lia).
+    set (d := takeZ (pssl_hello_len (p_compat s) - p_hlen s) kb) in *.
+    assert (Ld : 0 <= lenZ d <= pssl_hello_len (p_compat s) - p_hlen s) by (unfold d; rewrite lenZ_takeZ; pose proof (lenZ_nonneg kb); lia).
+    unfold pssl_hello_k in E.
+    destruct (Z.eqb_spec (lenZ d) 0).
+    { simpl in E. inversion E; subst. unfold pinv. rewrite H, B. repeat split; auto; discriminate. }
+    rewrite mwrite_some in E by lia.
+    set (hb := takeZ (p_hlen s) (p_hbuf s) ++ d ++ dropZ (p_hlen s + lenZ d) (p_hbuf s)) in *.
+    assert (LH : lenZ hb = 83) by (unfold hb; rewrite !lenZ_app, lenZ_takeZ, lenZ_dropZ; lia).
+    destruct (Z.ltb_spec (p_hlen s + lenZ d) (pssl_hello_len (p_compat s))).
+    { simpl in E. inversion E; subst. unfold pinv; simpl. repeat split; auto; try lia; discriminate. }
+    destruct (pssl_valid_some (p_compat s) hb (p_hlen s + lenZ d) LH) as (bb & hb' & V & LH'). rewrite V in E.
+    destruct bb.
+    + rewrite exec_flush_queue in E. simpl in E. inversion E; subst. unfold pinv; simpl. repeat split; auto; try lia; discriminate.
     + simpl in E. inversion E; subst. lia.
 Qed.
 
-Lemma pssl_strict G s : p_hs s = false -> strict_only (pssl_body G s).
+Lemma pssl_resume : resume_ok pssl_body vis_str pinv.
 Proof.
-  intros H. unfold pssl_body. rewrite H. destruct (p_base s); [|constructor].
-  constructor. intros d. destruct (lenZ d =? 0); [constructor|].
-  destruct (pssl_valid G (p_compat s) d) as [[|]|]; try constructor.
-  apply flush_queue_strict. constructor.
-Qed.
-
-Lemma pssl_resume G : resume_ok (pssl_body G) vis_str pinv.
-Proof.
-  intros s a b o1 e1 I NA NB E F C.
+  intros s a b o1 e1 (LB & L0 & HB & HL) NA NB E F _.
   destruct (p_hs s) eqn:H.
-  - left. apply passthrough_transparent. unfold pssl_body. rewrite H, (I H). reflexivity.
-  - exfalso. pose proof (strict_clean_full _ (pssl_strict G s H) _ _ _ _ E C). congruence.
+  { left. apply passthrough_transparent. unfold pssl_body. rewrite H, (HB eq_refl). reflexivity. }
+  right. unfold pssl_body in E |- *. rewrite H in *.
+  destruct (p_base s) eqn:B.
+  2:{ simpl in E. inversion E; subst. contradiction. }
+  specialize (HL eq_refl eq_refl). pose proof (pssl_hello_len_range (p_compat s)) as N.
+  rewrite exec_read in *. rewrite w64_small' in * by (unfold W64; lia).
+  set (req := pssl_hello_len (p_compat s) - p_hlen s) in *.
+  pose proof (lenZ_pos a NA) as La. pose proof (lenZ_pos b NB) as Lb.
+  destruct (exec (pssl_hello_k s (takeZ req a)) (dropZ req a)) as [[o' k'] e'] eqn:E'.
+  inversion E; subst o' k' e1. clear E.
+  (* the read was short: every later step of the call is read-free *)
+  assert (SH : lenZ a < req).
+  { destruct (Z.lt_ge_cases (lenZ a) req); auto. exfalso.
+    simpl in F. rewrite lenZ_takeZ in F. destruct (Z.leb_spec req (Z.max 0 (Z.min req (lenZ a)))); [|lia]. simpl in F.
+    unfold pssl_hello_k in E'. destruct (lenZ (takeZ req a) =? 0); [simpl in E'; inversion E'; subst; discriminate|].
+    destruct (mwrite _ _ _); [|simpl in E'; inversion E'; subst; discriminate].
+    destruct (_ <? _); [simpl in E'; inversion E'; subst; discriminate|].
+    destruct (pssl_valid _ _ _) as [[[|] hb']|]; [rewrite exec_flush_queue in E'| |]; simpl in E'; inversion E'; subst;
+      try discriminate.
+    rewrite all_full_app in F. simpl in F. rewrite andb_true_r in F.
+    clear -F. induction (p_queue s); simpl in *; auto; discriminate. }
+  rewrite (takeZ_all req a) in * by lia. rewrite (dropZ_all req a) in * by lia.
+  rewrite (takeZ_app_r req a b) by lia. rewrite (dropZ_app_r req a b) by lia.
+  set (x := takeZ (req - lenZ a) b). set (rest := dropZ (req - lenZ a) b).
+  assert (Lx : 1 <= lenZ x) by (unfold x; rewrite lenZ_takeZ; lia).
+  assert (NX : x <> []) by (intros X; rewrite X, lenZ_nil0 in Lx; lia).
+  assert (Lrest : lenZ rest < lenZ b) by (unfold rest; rewrite lenZ_dropZ; lia).
+  rewrite hello_k_app by (auto; unfold req in SH; lia).
+  unfold pssl_hello_k in E' at 1. destruct (Z.eqb_spec (lenZ a) 0); [lia|].
+  destruct (mwrite (p_hbuf s) (p_hlen s) a) as [hb|].
+  - destruct (Z.ltb_spec (p_hlen s + lenZ a) (pssl_hello_len (p_compat s))); [|unfold req in SH; lia].
+    simpl in E'. inversion E'; subst o1 e'. clear E'.
+    set (s1 := {| p_compat := p_compat s; p_hs := false; p_base := true; p_queue := p_queue s; p_hbuf := hb; p_hlen := p_hlen s + lenZ a |}).
+    destruct (exec (pssl_hello_k s1 x) rest) as [[o2 k2] e2] eqn:E2.
+    exists o2, k2, (Rd false req (lenZ (a ++ x)) :: e2). split; [reflexivity|]. split; [lia|].
+    cbn [p_hs p_base p_compat p_hlen s1]. rewrite exec_read. rewrite w64_small' by (unfold W64, req in *; lia).
+    replace (pssl_hello_len (p_compat s) - (p_hlen s + lenZ a)) with (req - lenZ a) by (unfold req; lia).
+    fold x. fold rest. fold s1. rewrite E2.
+    eexists. split; [reflexivity|]. split; [reflexivity|].
+    pose proof (exec_suffix _ _ _ _ _ E2). lia.
+  - simpl in E'. inversion E'; subst. eexists None, rest, _. split; [reflexivity|]. split; reflexivity.
 Qed.
 
-Theorem pssl_seg_independent_except G s cs : pinv s ->
-  clean (snd (run (pssl_body G) (alive s) cs)) = true ->
-  weq (fst (run (pssl_body G) (alive s) cs)) (fst (feed (pssl_body G) (alive s) (concat cs))) /\
-  vis vis_str (snd (run (pssl_body G) (alive s) cs)) = vis vis_str (snd (feed (pssl_body G) (alive s) (concat cs))).
+Lemma exec_pssl_clean s kb o k e : exec (pssl_body s) kb = (o, k, e) -> clean e = true.
 Proof.
-  intros I C.
-  exact (run_seg_independent (pssl_body G) vis_str pinv (pssl_inv_step G) (pssl_resume G) cs (alive s) I C).
+  unfold pssl_body. destruct (p_hs s).
+  { destruct (p_base s); [|intros E; inversion E; reflexivity]. unfold passthrough. simpl.
+    destruct (_ =? 0); intros E; inversion E; reflexivity. }
+  destruct (p_base s); [|intros E; inversion E; reflexivity].
+  rewrite exec_read. unfold pssl_hello_k.
+  destruct (_ =? 0); [intros E; inversion E; reflexivity|].
+  destruct (mwrite _ _ _); [|intros E; inversion E; reflexivity].
+  destruct (_ <? _); [intros E; inversion E; reflexivity|].
+  destruct (pssl_valid _ _ _) as [[[|] hb']|]; [rewrite exec_flush_queue| |]; simpl; intros E; inversion E; subst; try reflexivity.
+  simpl. rewrite clean_app. simpl. rewrite andb_true_r. clear. induction (p_queue s); simpl; auto.
 Qed.
 
-Theorem pssl_tunnel_transparent G s cs : p_hs s = true -> p_base s = true ->
-  fst (run (pssl_body G) (alive s) cs) = alive s /\
-  vis vis_str (snd (run (pssl_body G) (alive s) cs)) = map OByte (concat cs).
+Theorem pssl_seg_independent s cs : pinv s ->
+  weq (fst (run pssl_body (alive s) cs)) (fst (feed pssl_body (alive s) (concat cs))) /\
+  vis vis_str (snd (run pssl_body (alive s) cs)) = vis vis_str (snd (feed pssl_body (alive s) (concat cs))).
+Proof.
+  intros I.
+  apply (run_seg_independent pssl_body vis_str pinv pssl_inv_step pssl_resume cs (alive s) I).
+  apply run_clean. intros. eapply exec_pssl_clean; eauto.
+Qed.
+
+Theorem pssl_tunnel_transparent s cs : p_hs s = true -> p_base s = true ->
+  fst (run pssl_body (alive s) cs) = alive s /\
+  vis vis_str (snd (run pssl_body (alive s) cs)) = map OByte (concat cs).
 Proof.
   intros H B. apply transparent_run. apply passthrough_transparent. unfold pssl_body. rewrite H, B. reflexivity.
 Qed.
@@ -105,25 +162,38 @@ Lemma pssl_send_transparent s rel bufs : p_hs s = true -> p_base s = true ->
 Proof. intros H B. unfold pssl_send. rewrite H, B. reflexivity. Qed.
 
 (** no Fault, no spinning *)
-Lemma pssl_call_ok G s kb o k e : pinv s -> kb <> [] -> exec (pssl_body G s) kb = (o, k, e) -> Forall (fun _ => True) e ->
+Lemma pssl_call_ok s kb o k e : pinv s -> kb <> [] -> exec (pssl_body s) kb = (o, k, e) -> Forall (fun _ => True) e ->
   match o with None => False | Some (s1, r) => 0 <= r -> pinv s1 /\ lenZ k < lenZ kb end.
 Proof.
-  intros I N E _. pose proof (lenZ_pos kb N) as Lk.
-  destruct (p_hs s) eqn:H.
-  - unfold pssl_body in E. rewrite H, (I H) in E. rewrite exec_passthrough in E by auto. inversion E; subst.
-    intros _. split; auto. rewrite lenZ_dropZ. unfold UPCAP. lia.
-  - destruct (p_base s) eqn:B.
-    + destruct (pssl_handshake_exec G s kb H B N) as (o' & e' & E' & [O|[s1 O]]); rewrite E' in E; inversion E; subst.
-      * intros _. split; [unfold pinv; simpl; auto|]. rewrite lenZ_dropZ. pose proof (pssl_hello_len_range (p_compat s)). lia.
-      * lia.
-    + unfold pssl_body in E. rewrite H, B in E. simpl in E. inversion E; subst. lia.
+  intros I N E _. pose proof I as (LB & L0 & HB & HL). pose proof (lenZ_pos kb N) as Lk.
+  destruct o as [[s1 r]|].
+  - intros R. split; [eapply pssl_inv_step; eauto|].
+    unfold pssl_body in E. destruct (p_hs s) eqn:H.
+    + rewrite (HB eq_refl) in E. rewrite exec_passthrough in E by auto. inversion E; subst. rewrite lenZ_dropZ. unfold UPCAP. lia.
+    + destruct (p_base s) eqn:B; [|simpl in E; inversion E; subst; lia].
+      specialize (HL eq_refl eq_refl). eapply read_progress; [| |exact E]; auto.
+      rewrite w64_small' by (pose proof (pssl_hello_len_range (p_compat s)); unfold W64; lia). lia.
+  - unfold pssl_body in E. destruct (p_hs s) eqn:H.
+    + rewrite (HB eq_refl) in E. rewrite exec_passthrough in E by auto. inversion E.
+    + destruct (p_base s) eqn:B; [|simpl in E; inversion E].
+      specialize (HL eq_refl eq_refl). pose proof (pssl_hello_len_range (p_compat s)) as NN.
+      rewrite exec_read in E. rewrite w64_small' in E by (unfold W64; lia).
+      set (d := takeZ (pssl_hello_len (p_compat s) - p_hlen s) kb) in *.
+      assert (Ld : 0 <= lenZ d <= pssl_hello_len (p_compat s) - p_hlen s) by (unfold d; rewrite lenZ_takeZ; lia).
+      unfold pssl_hello_k in E. destruct (lenZ d =? 0); [simpl in E; inversion E|].
+      rewrite mwrite_some in E by lia.
+      match type of E with context [pssl_valid ?c ?hb ?l] =>
+        destruct (pssl_valid_some c hb l) as (bb & hb' & V & _);
+        [rewrite !lenZ_app, lenZ_takeZ, lenZ_dropZ; lia | rewrite V in E] end.
+      destruct (_ <? _); [simpl in E; inversion E|].
+      destruct bb; [rewrite exec_flush_queue in E|]; simpl in E; inversion E.
 Qed.
 
-Theorem pssl_no_fault G s cs : pinv s ->
-  ~ In EFault (snd (run (pssl_body G) (alive s) cs)) /\ ~ In ELive (snd (run (pssl_body G) (alive s) cs)).
+Theorem pssl_no_fault s cs : pinv s ->
+  ~ In EFault (snd (run pssl_body (alive s) cs)) /\ ~ In ELive (snd (run pssl_body (alive s) cs)).
 Proof.
   intros I.
-  destruct (run_ok (pssl_body G) pinv (fun _ => True) (pssl_call_ok G) cs (alive s)
+  destruct (run_ok pssl_body pinv (fun _ => True) pssl_call_ok cs (alive s)
               (fun _ => I) ltac:(discriminate) ltac:(discriminate)) as (A & B & _); auto.
   apply Forall_forall. auto.
 Qed.
